@@ -415,3 +415,7 @@ Definition refuted (r' : re) (fs : fam) : bool :=
 Definition competitors (table : list rx_row) (row : rx_row) : list N :=
   let fs := row_fam row in
   map rx_index (filter (fun r' => if rx_index r' <? rx_index row then negb (refuted (rx_re r') fs) else false) table).
+
+(* row of a table by index (for the generated competitor shards) *)
+Definition rx_at (table : list rx_row) (i : N) : rx_row :=
+  match find (fun r => rx_index r =? i) table with Some r => r | None => mkRx 0 REps 0 [] 0 0 0 0 end.
